@@ -87,6 +87,23 @@ def gen(tier, rng, harness=None, driver=None):
         lines.append("num.modapi " + " ".join(ents))
         lines.append("!num.modok " + " ".join(ents))
         lines.append("!num.apiok " + " ".join(ents))
+    # global entities with their identifiers AS WRITTEN: right IDs, the empty name, and wrong IDs (repeated, skipped, swapped, restarted) of every kind
+    for _ in range(300 if tier == "quick" else 20000):
+        ents, nxt = [], 0
+        wrong = rng.random() < 0.5
+        for _ in range(rng.randint(1, 7)):
+            kd = rng.choice("GAIFD")
+            r = rng.random()
+            if r < 0.25:
+                ents.append(kd + ":n")
+            elif r < 0.4:
+                ents.append(kd + ":q"); nxt += 1
+            else:
+                w = nxt
+                if wrong and rng.random() < 0.4:
+                    w = rng.choice([0, nxt + 1, max(0, nxt - 1), nxt + 2, 7])
+                ents.append("%s:e%d" % (kd, w)); nxt += 1
+        lines.append("num.gsrc " + " ".join(ents))
     # systematic (every run): every kind of unnamed global entity before and after every kind of foreign entity
     for g in ("G:u", "A:u", "I:u", "F:u", "D:u"):
         for x in "amtcn":
